@@ -165,6 +165,10 @@ type pcase struct {
 	Path    wire.PathSpec `json:"path"`
 	SrcPort uint16        `json:"src_port"`
 	BigE2E  int           `json:"big_e2e,omitempty"` // forwarded packets: number of 250-byte options of an unknown type in the end-to-end extension (4 of them come to 1012 of the 1024 bytes an extension can have)
+	// Front: what the other authenticator option of the "second-*" variants carries: "" = another SPI and the time
+	// service's algorithm, "same-spi-other-algo" = the time service's SPI with another algorithm,
+	// "other-spi-other-algo" = neither
+	Front   string        `json:"front,omitempty"`
 	SPAO    string        `json:"spao"` // "none" | "valid" | "mac-bit" | "covered-byte" | "other-spi" | "other-algo" | "server-spi" | "meta-bit"
 	Bit     int           `json:"bit"`  // which bit / byte to disturb
 	HBH     bool          `json:"hbh"`
@@ -254,7 +258,17 @@ func checkCase(t failer, c pcase) (labels []string) {
 		if c.SPAO == "second-valid" || c.SPAO == "second-mac-bit" {
 			// an authenticator option of somebody else's (another SPI, arbitrary MAC) in front of the time service's:
 			// an extension may hold several, and other options are not part of the MAC input
-			other := wire.NewAuthOpt(spi^(1<<uint(c.Bit%20)), algo)
+			ospi, oalgo := spi^(1<<uint(c.Bit%20)), algo
+			switch c.Front {
+			case "same-spi-other-algo":
+				ospi, oalgo = spi, uint8(1+c.Bit%200)
+			case "other-spi-other-algo":
+				oalgo = uint8(1 + c.Bit%200)
+			}
+			other := wire.NewAuthOpt(ospi, oalgo)
+			if c.Front != "" {
+				labels = append(labels, "front-option:"+c.Front)
+			}
 			for i := 12; i < len(other.OptData); i++ {
 				other.OptData[i] = byte(c.Bit>>uint(i%5)) ^ byte(i)
 			}
@@ -528,7 +542,7 @@ func genPath(t *rapid.T) wire.PathSpec {
 	return ps
 }
 
-var recProbe = ev.New("c13/listener-probes", "rapid: SCION packets built with slayers and sent from a harness 'previous hop' socket to the real SCION listener (service port and end-host port 30041, USE_MOCK_KEYS=true): payload {NTP request, SCMP echo (0..1200 data bytes), SCMP traceroute, UDP to another end-host port, UDP to port 30041}; SCION host addresses IPv4 / IPv6 / IPv4-mapped IPv6 on either side, arbitrary ISD-AS; path {empty, SCION with 1..3 segments x 1..16 hops at every CurrINF/CurrHF position, one-hop, EPIC-HP (a SCION path behind a packet id and two hop validation fields; the reply has to use the reversed SCION path, as the one-way EPIC header cannot be reversed)}; arbitrary L4 source port; hop-by-hop extension present or not; packet authenticator {absent, valid MAC, flipped MAC bit, the same two behind another party's authenticator option (other SPI) in the same extension, flipped covered payload byte, flipped authenticator metadata bit, other SPI, server-direction SPI, other algorithm}. Each probe is followed by a sentinel on the same socket pair. Oracle: time-service authenticator whose recomputed MAC differs => no reply; valid => reply with server-direction authenticator that verifies; every reply returns to the previous hop with ISD-AS/host/port exchanged, path equal to an independently computed reversal, NTP transmit timestamp / SCMP identifier, sequence number and data echoed; forwarding exactly when received on the end-host port for a port != 30041, once, payload and addresses unchanged (also when the end-to-end extension is nearly as long as an extension can be: 1..4 options of 250 bytes); nothing ever reaches port 30041 of the destination host. Non-trivial: non-empty path, authenticator present, or the forwarding branch; distinct by case hash")
+var recProbe = ev.New("c13/listener-probes", "rapid: SCION packets built with slayers and sent from a harness 'previous hop' socket to the real SCION listener (service port and end-host port 30041, USE_MOCK_KEYS=true): payload {NTP request, SCMP echo (0..1200 data bytes), SCMP traceroute, UDP to another end-host port, UDP to port 30041}; SCION host addresses IPv4 / IPv6 / IPv4-mapped IPv6 on either side, arbitrary ISD-AS; path {empty, SCION with 1..3 segments x 1..16 hops at every CurrINF/CurrHF position, one-hop, EPIC-HP (a SCION path behind a packet id and two hop validation fields; the reply has to use the reversed SCION path, as the one-way EPIC header cannot be reversed)}; arbitrary L4 source port; hop-by-hop extension present or not; packet authenticator {absent, valid MAC, flipped MAC bit, the same two behind another authenticator option in the same extension (another party's SPI, the time service's SPI with another algorithm, or neither), flipped covered payload byte, flipped authenticator metadata bit, other SPI, server-direction SPI, other algorithm}. Each probe is followed by a sentinel on the same socket pair. Oracle: time-service authenticator whose recomputed MAC differs => no reply; valid => reply with server-direction authenticator that verifies; every reply returns to the previous hop with ISD-AS/host/port exchanged, path equal to an independently computed reversal, NTP transmit timestamp / SCMP identifier, sequence number and data echoed; forwarding exactly when received on the end-host port for a port != 30041, once, payload and addresses unchanged (also when the end-to-end extension is nearly as long as an extension can be: 1..4 options of 250 bytes); nothing ever reaches port 30041 of the destination host. Non-trivial: non-empty path, authenticator present, or the forwarding branch; distinct by case hash")
 
 func TestPropListenerProbes(t *testing.T) {
 	vt.Check(t, 2500, 25000, func(t *rapid.T) {
@@ -548,6 +562,9 @@ func TestPropListenerProbes(t *testing.T) {
 			Fill: rapid.Uint64().Draw(t, "fill"),
 			TC:   rapid.OneOf(rapid.Just(uint8(0)), rapid.Uint8()).Draw(t, "tc"),
 			Flow: rapid.OneOf(rapid.Just(uint32(1)), rapid.Uint32Range(0, 1<<20-1)).Draw(t, "flow"),
+		}
+		if c.SPAO == "second-valid" || c.SPAO == "second-mac-bit" {
+			c.Front = rapid.SampledFrom([]string{"", "", "same-spi-other-algo", "same-spi-other-algo", "other-spi-other-algo"}).Draw(t, "front")
 		}
 		if c.Payload != "ntp" && c.Payload[:3] != "udp" {
 			c.SPAO = "none"
@@ -712,7 +729,7 @@ func TestPropEndToEnd(t *testing.T) {
 				return out
 			}
 		case "reply-second-authenticator":
-			// the reply re-serialized with another party's authenticator option (other SPI) in front of the genuine one
+			// the reply re-serialized with another authenticator option (another party's SPI, or the time service's SPI with another algorithm) in front of the genuine one
 			// in the same extension, and one covered payload byte changed
 			relay.mutRsp = func(b []byte) []byte {
 				p, err := wire.Parse(b)
@@ -721,7 +738,12 @@ func TestPropEndToEnd(t *testing.T) {
 				}
 				src, _ := p.SrcAddr()
 				dst, _ := p.DstAddr()
-				other := wire.NewAuthOpt(scion.PacketAuthSPIServer^(1<<uint(bit%16)), scion.PacketAuthAlgorithm)
+				// (other SPI, or - every third time - the server's own SPI with another algorithm)
+				ospi, oalgo := scion.PacketAuthSPIServer^(1<<uint(bit%16)), uint8(scion.PacketAuthAlgorithm)
+				if bit%3 == 0 {
+					ospi, oalgo = scion.PacketAuthSPIServer, uint8(1+bit%200)
+				}
+				other := wire.NewAuthOpt(ospi, oalgo)
 				for i := 12; i < len(other.OptData); i++ {
 					other.OptData[i] = byte(bit>>uint(i%7)) ^ byte(i)
 				}
